@@ -61,14 +61,19 @@ Definition by_name (md : mdesc) (s : list Z) : option fdesc :=
      fx_loadbound d8f3205 the recursive scan is bounded by the child node      (1010)
    Proposed by C10 (patch series in /tmp/c10-fixwt):
      fx_mapentry  1001; fx_insert 1002; fx_readint 1004/1008 (fixed32/fixed64 keys); fx_emptied 1005; fx_sintkey 1009;
-     fx_elemaddr  rest of 1003 (address of an unpacked list element = its tag) *)
+     fx_elemaddr  rest of 1003 (address of an unpacked list element = its tag)
+     fx_stalenext 1013 (handleChild truncates the Next of a recycled slot) *)
 Record fixes := mk_fixes {
   fx_noderr : bool; fx_idxrange : bool; fx_idx0 : bool; fx_bound : bool; fx_skipall : bool; fx_skipbytes : bool;
   fx_loadempty : bool; fx_loadbound : bool;
-  fx_mapentry : bool; fx_insert : bool; fx_readint : bool; fx_emptied : bool; fx_sintkey : bool; fx_elemaddr : bool }.
-Definition no_fixes : fixes := mk_fixes false false false false false false false false false false false false false false.
-Definition head_fixes : fixes := mk_fixes true true true true true true true true false false false false false false.
-Definition all_fixes : fixes := mk_fixes true true true true true true true true true true true true true true.
+  fx_mapentry : bool; fx_insert : bool; fx_readint : bool; fx_emptied : bool; fx_sintkey : bool; fx_elemaddr : bool;
+  fx_stalenext : bool }.
+Definition no_fixes : fixes := mk_fixes false false false false false false false false false false false false false false false.
+(* /repo before the six C10 repairs (d02f250) *)
+Definition pre_c10_fixes : fixes := mk_fixes true true true true true true true true false false false false false false false.
+(* /repo HEAD: the six C10 repairs are in (e78089f c54d65f b0cbc62 4e6b95d 75b35b7 a0b81ab) *)
+Definition head_fixes : fixes := mk_fixes true true true true true true true true true true true true true true false.
+Definition all_fixes : fixes := mk_fixes true true true true true true true true true true true true true true true.
 
 Section Fx.
 Variable fx : fixes.
@@ -886,6 +891,249 @@ Definition coded_load_marshal (S : schema) (root : list Z) (buf : list Z) : eres
 
 End Fx.
 
+(* ---------------------------------------------------------------- PathNode trees that are RE-USED (stateful transcription)
+   Load writes into the slots of the previous tree: scanChildren starts from self.Next[:0], handleChild re-exposes slot l
+   of the backing array (guardPathNodeSlice re-allocates only when l reaches the capacity: the first l slots are copied,
+   DefaultNodeSliceCap = 16 zeroed slots are added) and overwrites Node (and the caller Path) only.  The Next of a slot
+   is refilled only when the child is scanned recursively; Marshal prefers Next over the raw bytes whenever it is not
+   empty.  fx_stalenext: handleChild / handleUnknownChild truncate the Next of the slot they hand out (finding 1013). *)
+Inductive ppath := PPNone | PPId (n : Z) | PPIdx (i : Z) | PPStr (s : list Z) | PPInt (k : Z).
+Inductive slot := Slot (t : Z) (raw : list Z) (et kt : Z) (path : ppath) (nlen : nat) (arr : list slot).
+Definition slot0 : slot := Slot 0 [] 0 0 PPNone 0 [].
+Definition sl_t (s : slot) := match s with Slot t _ _ _ _ _ _ => t end.
+Definition sl_nlen (s : slot) := match s with Slot _ _ _ _ _ n _ => n end.
+Definition sl_arr (s : slot) := match s with Slot _ _ _ _ _ _ a => a end.
+Definition sl_path (s : slot) := match s with Slot _ _ _ _ p _ _ => p end.
+Definition sl_set_path (p : ppath) (s : slot) : slot := match s with Slot t r e k _ n a => Slot t r e k p n a end.
+Definition path_id (p : ppath) : Z := match p with PPId n => n | _ => 0 end.
+Definition path_int (p : ppath) : Z :=
+  match p with PPId n => n | PPIdx i => i | PPInt k => k | PPStr s => blen s | PPNone => 0 end.
+Definition path_str (p : ppath) : list Z := match p with PPStr s => s | _ => [] end.
+
+(* guardPathNodeSlice + con[:l+1]: the array in which slot l can be written *)
+Definition arr_guard (arr : list slot) (l : nat) : list slot :=
+  if (length arr <=? l)%nat then firstn l arr ++ repeat slot0 16 else arr.
+Fixpoint arr_set (arr : list slot) (l : nat) (x : slot) : list slot :=
+  match arr, l with
+  | [], _ => []
+  | _ :: r, O => x :: r
+  | y :: r, S l' => y :: arr_set r l' x
+  end.
+
+Section Reuse.
+  Variable fx : fixes.
+  Variable recurse : bool.
+  Let stalefix := fx_stalenext fx.
+  Variable S : schema.
+  Variable buf : list Z.
+
+  Section TLoops.
+    (* child handler at smaller fuel: (narrowed) buffer, desc, Read after the tag, tag length, the old slot -> new slot (no path), new Read *)
+    Variable rec : list Z -> tdesc -> Z -> Z -> slot -> eres (slot * Z).
+    Variable cb : list Z.
+
+    Fixpoint tl_msg_loop (fuel : nat) (md : mdesc) (rd stop : Z) (arr : list slot) (l : nat) : eres (list slot * nat * Z) :=
+      match fuel with
+      | O => EPanic
+      | Datatypes.S f =>
+        if rd <? stop then
+          elet '(num, wt, rd1) := c_tag cb rd in
+          let arr1 := arr_guard arr l in
+          let old := nth l arr1 slot0 in
+          match find_field md num with
+          | None =>
+            elet rd2 := c_skip fx cb rd1 wt in
+            elet rd3 := lm_absorb fx cb (Datatypes.S (length cb)) rd2 num in
+            let v := Slot 0 (slice_ cb rd rd3) 0 0 (PPId num)
+                          (if stalefix then O else sl_nlen old) (sl_arr old) in
+            tl_msg_loop f md rd3 stop (arr_set arr1 l v) (Datatypes.S l)
+          | Some fd =>
+            elet '(v, rd2) := rec cb (td_of_field fd) rd1 (rd1 - rd) old in
+            tl_msg_loop f md rd2 stop (arr_set arr1 l (sl_set_path (PPId num) v)) (Datatypes.S l)
+          end
+        else EOk (arr, l, rd)
+      end.
+
+    Fixpoint tl_packed_loop (fuel : nat) (e : tdesc) (rd stop : Z) (arr : list slot) (l : nat) : eres (list slot * nat * Z) :=
+      match fuel with
+      | O => EPanic
+      | Datatypes.S f =>
+        if rd <? stop then
+          let arr1 := arr_guard arr l in
+          elet '(v, rd1) := rec cb e rd 0 (nth l arr1 slot0) in
+          tl_packed_loop f e rd1 stop (arr_set arr1 l (sl_set_path (PPIdx (Z.of_nat l)) v)) (Datatypes.S l)
+        else EOk (arr, l, rd)
+      end.
+
+    Fixpoint tl_unpacked_loop (fuel : nat) (e : tdesc) (fnum rd : Z) (arr : list slot) (l : nat) : eres (list slot * nat * Z) :=
+      match fuel with
+      | O => EPanic
+      | Datatypes.S f =>
+        if rd <? blen cb then
+          elet '(num, _, tl) := c_tag_peek cb rd in
+          if negb (num =? fnum) then EOk (arr, l, rd)
+          else
+            let arr1 := arr_guard arr l in
+            elet '(v, rd1) := rec cb e (rd + tl) tl (nth l arr1 slot0) in
+            tl_unpacked_loop f e fnum rd1 (arr_set arr1 l (sl_set_path (PPIdx (Z.of_nat l)) v)) (Datatypes.S l)
+        else EOk (arr, l, rd)
+      end.
+
+    Fixpoint tl_map_loop (fuel : nat) (fnum kk : Z) (e : tdesc) (rd : Z) (arr : list slot) (l : nat) : eres (list slot * nat * Z) :=
+      match fuel with
+      | O => EPanic
+      | Datatypes.S f =>
+        if rd <? blen cb then
+          elet '(num, _, tl) := c_tag_peek cb rd in
+          if negb (num =? fnum) then EOk (arr, l, rd)
+          else
+            elet '(plen_, rd1) := c_len cb (rd + tl) in
+            if plen_ <=? 0 then EPlain else
+            elet '(_, _, rd2) := c_tag cb rd1 in
+            elet '(key, rd3) :=
+              (if kk =? 9 then elet '(s, r) := c_string cb rd2 in EOk (PPStr s, r)
+               else if is_int_type kk then elet '(x, r) := c_int fx cb rd2 kk in EOk (PPInt x, r)
+               else EPlain) in
+            elet '(_, _, rd4) := c_tag cb rd3 in
+            let arr1 := arr_guard arr l in
+            elet '(v, rd5) := rec cb e rd4 (rd4 - rd3) (nth l arr1 slot0) in
+            tl_map_loop f fnum kk e rd5 (arr_set arr1 l (sl_set_path key v)) (Datatypes.S l)
+        else EOk (arr, l, rd)
+      end.
+  End TLoops.
+
+  (* handleChild *)
+  Fixpoint tl_child (fuel : nat) (pb : list Z) (d : tdesc) (rd tagL : Z) (old : slot) {struct fuel} : eres (slot * Z) :=
+    match fuel with
+    | O => EPanic
+    | Datatypes.S f =>
+      let tty := td_type d in
+      let container := (tty =? T_LIST) || (tty =? T_MAP) in
+      let start := if container then rd - tagL else rd in
+      if start <? 0 then EPlain else
+      elet rd1 := c_skip fx pb rd (if container then 2 else wire_of_type tty) in
+      elet rd2 := (if ((tty =? T_LIST) && negb (td_packed d)) || (tty =? T_MAP)
+                   then lm_absorb fx pb (Datatypes.S (length pb)) rd1 (td_baseid d) else EOk rd1) in
+      let raw := slice_ pb start rd2 in
+      let on := if stalefix then O else sl_nlen old in
+      let oa := sl_arr old in
+      let cb := firstn (Z.to_nat rd2) pb in
+      let cbf := Datatypes.S (length cb) in
+      match d with
+      | DScalar _ => EOk (Slot tty raw 0 0 PPNone on oa, rd2)
+      | DMsg name =>
+        if negb recurse then EOk (Slot tty raw 0 0 PPNone on oa, rd2) else
+        match find_msg S name with
+        | None => EPanic
+        | Some md =>
+          elet '(mlen, r0) := c_len cb start in
+          if mlen <? 0 then EPlain else
+          elet '(arr, n, rdE) := tl_msg_loop (tl_child f) cb cbf md r0 (r0 + mlen) oa O in
+          EOk (Slot tty raw 0 0 PPNone n arr, rdE)
+        end
+      | DList id e =>
+        let et := td_type e in
+        if negb recurse then EOk (Slot tty raw et 0 PPNone on oa, rd2) else
+        if td_packed d then
+          elet '(_, _, r0) := c_tag cb start in
+          elet '(llen, r1) := c_len cb r0 in
+          elet '(arr, n, rdE) := tl_packed_loop (tl_child f) cb cbf e r1 (r1 + llen) oa O in
+          EOk (Slot tty raw et 0 PPNone n arr, rdE)
+        else
+          elet '(arr, n, rdE) := tl_unpacked_loop (tl_child f) cb cbf e id start oa O in
+          EOk (Slot tty raw et 0 PPNone n arr, rdE)
+      | DMap id kk e =>
+        let et := td_type e in
+        if negb recurse then EOk (Slot tty raw et kk PPNone on oa, rd2) else
+        elet '(arr, n, rdE) := tl_map_loop (tl_child f) cb cbf id kk e start oa O in
+        EOk (Slot tty raw et kk PPNone n arr, rdE)
+      end
+    end.
+
+  (* PathNode.Load on the root slot *)
+  Definition tl_load (root : list Z) (old : slot) : eres slot :=
+    match find_msg S root with
+    | None => EPanic
+    | Some md =>
+      elet '(arr, n, _) := tl_msg_loop (tl_child (Datatypes.S (2 * length buf))) buf (Datatypes.S (length buf)) md 0 (blen buf) (sl_arr old) O in
+      EOk (Slot 11 buf 0 0 (sl_path old) n arr)
+    end.
+End Reuse.
+
+(* PathNode.marshal *)
+Definition tag_ok (num : Z) : bool := (1 <=? num) && (num <=? 536870911).
+Definition wire_of_type0 (t : Z) : Z := let w := wire_of_type t in if w <? 0 then 0 else w.
+Fixpoint tl_concat (l : list (eres (list Z))) : eres (list Z) :=
+  match l with
+  | [] => EOk []
+  | x :: r => elet a := x in elet b := tl_concat r in EOk (a ++ b)
+  end.
+Fixpoint tl_marshal (fx : fixes) (fuel : nat) (rootLayer : bool) (s : slot) {struct fuel} : eres (list Z) :=
+  match fuel with
+  | O => EPanic
+  | Datatypes.S f =>
+    match s with
+    | Slot t raw et kt path nlen arr =>
+      let kids := firstn nlen arr in
+      match kids with
+      | [] => EOk raw
+      | _ =>
+        if t =? 11 then
+          elet body := tl_concat (map (fun k =>
+                          elet tg := (if (sl_t k =? T_LIST) || (sl_t k =? T_MAP) || (sl_t k =? 0) then EOk []
+                                      else if tag_ok (path_id (sl_path k)) then EOk (lm_tag (path_id (sl_path k)) (wire_of_type0 (sl_t k)))
+                                      else EPlain) in
+                          elet o := tl_marshal fx f false k in EOk (tg ++ o)) kids) in
+          EOk (if rootLayer then body else lm_len body)
+        else if t =? T_LIST then
+          let num := path_id path in
+          if type_packed et then
+            if negb (tag_ok num) then EPlain else
+            elet body := tl_concat (map (tl_marshal fx f false) kids) in
+            EOk (lm_tag num 2 ++ lm_len body)
+          else
+            tl_concat (map (fun k => if sl_t k =? T_LIST then EPanic          (* Type.TypeToKind panics on LIST *)
+                                     else if negb (tag_ok num) then EPlain
+                                     else elet o := tl_marshal fx f false k in EOk (lm_tag num (wire_of_type0 (sl_t k)) ++ o)) kids)
+        else if t =? T_MAP then
+          let num := path_id path in
+          tl_concat (map (fun k =>
+            if negb (tag_ok num) then EPlain else
+            elet keyb :=
+              (if kt =? 9 then EOk (lm_tag 1 2 ++ varint_enc (blen (path_str (sl_path k))) ++ path_str (sl_path k))
+               else if is_int_type kt then
+                 let x := path_int (sl_path k) in
+                 let wt := wire_of_type kt in
+                 EOk (lm_tag 1 wt ++ (if fx_sintkey fx && (kt =? 17) then varint_enc (zigzag_enc (to_s 32 (x mod 2 ^ 32)) mod 2 ^ 64)
+                                      else if fx_sintkey fx && (kt =? 18) then varint_enc (zigzag_enc x mod 2 ^ 64)
+                                      else if wt =? 0 then varint_enc (x mod 2 ^ 64)
+                                      else if wt =? 5 then le_enc 4 (x mod 2 ^ 32) else le_enc 8 (x mod 2 ^ 64)))
+               else EPlain) in
+            let vtag := if (sl_t k =? T_LIST) || (sl_t k =? T_MAP) then [] else lm_tag 2 (wire_of_type0 et) in
+            elet o := tl_marshal fx f false k in
+            EOk (lm_tag num 2 ++ lm_len (keyb ++ vtag ++ o))) kids)
+        else if existsb (Z.eqb t) [8; 5; 17; 13; 7; 15; 3; 18; 4; 6; 16; 2; 1; 9; 12; 0] then EOk raw
+        else EPlain
+      end
+    end
+  end.
+
+(* the whole re-use sequence: (error class, bytes); None = the FIRST load fails (the harness emits no such case) *)
+Definition coded_reuse (fx : fixes) (S : schema) (root : list Z) (bA bB : list Z) (recA recB : bool) (mode : Z)
+  : option (eres (list Z)) :=
+  let fuel := fun b : list Z => Datatypes.S (2 * length b) in
+  match tl_load fx recA S bA root slot0 with
+  | EOk tA =>
+    Some (
+    elet tB := tl_load fx recB S bB root tA in
+    if mode =? 2 then
+      elet _ := tl_marshal fx (fuel bB + fuel bA) true tB in
+      elet tA2 := tl_load fx recA S bA root tB in
+      tl_marshal fx (fuel bB + fuel bA) true tA2
+    else tl_marshal fx (fuel bB + fuel bA) true tB)
+  | _ => None
+  end.
+
 (* ---------------------------------------------------------------- defect classes (selectors on the case)
    ids are listed in findings/C10.json.  OPEN on the current tree (a deviation is accepted as KNOWN only if it equals the
    transcription under [cur_fixes]):
@@ -992,8 +1240,8 @@ Definition known_class (S : schema) (root : list Z) (prev : list Z) (o : cop) (e
   match cres_matches o (coded_op cur_fixes S root prev o) err ex res with
   | Some x => Some (class_of S root o x)
   | None =>
-    (* regression recognisers: the tree before the C10 repairs (d02f250), then the pinned tree *)
-    match cres_matches o (coded_op head_fixes S root prev o) err ex res with
+    (* regression recognisers: the tree before the six C10 repairs (d02f250), then the pinned tree *)
+    match cres_matches o (coded_op pre_c10_fixes S root prev o) err ex res with
     | Some x => Some (class_of S root o x)
     | None =>
       match cres_matches o (coded_op no_fixes S root prev o) err ex res with
@@ -1025,8 +1273,21 @@ Definition known_load (S : schema) (root : list Z) (m0 : pmsg) (b0 : list Z) (re
   let sint := has_key_kind (fun k => (k =? 17) || (k =? 18)) v in
   if load_matches (coded_load_marshal cur_fixes S root b0) err outb then
     Some (if err =? 0 then (if sint then 1009 else 1010) else if badkey then 1008 else 1010)
-  else if load_matches (coded_load_marshal head_fixes S root b0) err outb then
+  else if load_matches (coded_load_marshal pre_c10_fixes S root b0) err outb then
     Some (if err =? 0 then (if sint then 1009 else 1010) else if badkey then 1008 else 1010)
   else if load_matches (coded_load_marshal no_fixes S root b0) err outb then
     Some (if (err =? 1) && empty then 1007 else 1010)
   else None.
+
+(* 1013 a recycled PathNode slot keeps the children (Next) of its previous occupant unless the new child is scanned
+   recursively; Marshal re-encodes from them *)
+Definition known_reuse (S : schema) (root : list Z) (bA bB : list Z) (recA recB mode err : Z) (outb : list Z) : option Z :=
+  match coded_reuse cur_fixes S root bA bB (recA =? 1) (recB =? 1) mode with
+  | Some r => if load_matches r err outb then Some 1013 else None
+  | None => None
+  end.
+Definition reuse_agrees (S : schema) (root : list Z) (bA bB : list Z) (recA recB mode err : Z) (outb : list Z) : bool :=
+  match coded_reuse cur_fixes S root bA bB (recA =? 1) (recB =? 1) mode with
+  | Some r => load_matches r err outb
+  | None => true
+  end.
